@@ -33,7 +33,7 @@ def snap_segments(segments, variants, L, pad=2):
 
 def gen_case(draw, *, ncontigs=(1, 2), length=(400, 1200), nsamples=(1, 2), mingap=30, maxgap=110, maxlen=4,
              kinds=("snv", "snv", "snv", "ins", "del", "mnp"), depth=(2, 12), read_len=(60, 350), paired_share=20, skip_share=0,
-             clip_share=10, eqx_share=5, ploidy=2, sample_names=None, sparse_contig_share=0):
+             clip_share=10, eqx_share=5, ploidy=2, sample_names=None, sparse_contig_share=0, unsorted_gt_share=0):
     nc = draw(st.integers(*ncontigs))
     contigs = []
     variants = {}
@@ -49,6 +49,9 @@ def gen_case(draw, *, ncontigs=(1, 2), length=(400, 1200), nsamples=(1, 2), ming
     for s in samples:
         haps[s] = {c["name"]: G.gen_haplotypes(draw, len(variants[c["name"]]), ploidy) for c in contigs}
     case = {"contigs": contigs, "variants": variants, "samples": samples, "haps": haps}
+    if unsorted_gt_share and draw(st.integers(0, 99)) < unsorted_gt_share:
+        # some unphased genotypes are spelled with descending alleles ('1/0')
+        case["unsorted_gt"] = {s: {c["name"]: [vi for vi in range(len(variants[c["name"]])) if draw(st.integers(0, 2)) == 0] for c in contigs} for s in samples}
     specs = []
     for s in samples:
         for c in contigs:
